@@ -35,7 +35,9 @@ CLAIM = dict(
     "interpolation reproduces the values when K is invertible (any field). The model is tied to the classes by an exact "
     "differential correspondence on dyadic inputs incl. error classes and by G1 tables of the dof dispatch.",
     note="partial for kernel interpolation: exp, np.linalg.inv, float32 and the numba kernels are only observed (reproduction "
-    "1e-4, numba vs plain sum 1e-5); cv2.resize of label maps of another shape is outside the model.",
+    "1e-4, numba vs plain sum 1e-5), on fresh objects and along update sequences on one object (same-count new supports, "
+    "value-only updates, changed count, AdvancedKernelInterpolation) with equality to a fresh object after every step; every "
+    "updatable parameter is also set to exactly 0 through every route; cv2.resize of label maps of another shape is outside the model.",
     technique="Lean 4 proof + G1 tabulation + differential correspondence + property oracle",
 )
 
@@ -56,6 +58,11 @@ F = Fraction
 
 def dy(rng, lo=-16, hi=16, den=8):
     return Fraction(rng.randint(lo, hi), den)
+
+
+def dz(rng):
+    """update parameter: exactly 0 is a forced value (a falsy parameter must still be stored)"""
+    return Fraction(0) if rng.random() < 0.2 else dy(rng)
 
 
 def build(d, desc, labels):
@@ -196,7 +203,7 @@ def gen_case(rng, malformed=False):
         if malformed:
             need = max(0, need - rng.randint(1, 2))
             extra = 0
-        upd = ("all", None if rng.random() < 0.5 else "all", [dy(rng) for _ in range(need + extra)])
+        upd = ("all", None if rng.random() < 0.5 else "all", [dz(rng) for _ in range(need + extra)])
     else:
         entries = []
         poss = list(range(len(models)))
@@ -220,7 +227,7 @@ def gen_case(rng, malformed=False):
         extra = rng.choice([0, 0, 2])
         if malformed and rng.random() < 0.5:
             need, extra = max(0, need - 1), 0
-        upd = ("sub", entries, [dy(rng) for _ in range(need + extra)])
+        upd = ("sub", entries, [dz(rng) for _ in range(need + extra)])
     return Case(mode, models, upd, pix, label_values, shape)
 
 
@@ -500,8 +507,10 @@ def oracle_models(ctx, d):
                      {"line": c.line(), "observed": repr(out)[:200]})
 
     # (d) routing: "all" and every subset of updatable parameters
-    combos = [[("clip", F(0), F(1)), ("linear", F(1), F(0))], [("scaling", F(2)), ("clip", F(-1), None), ("linear", F(2), F(1))],
-              [("het", 2, [F(1), F(1)], [F(0), F(0)]), ("clip", F(0), F(2))], [("linear", F(1), F(0)), ("het", 3, [F(1)] * 3, [F(0)] * 3), ("scaling", F(3))]]
+    # initial parameters are non-zero and distinct from the update values, so that an update to exactly 0 shows in the output
+    combos = [[("clip", F(-1), F(2)), ("linear", F(2), F(1))], [("scaling", F(2)), ("clip", F(-1), None), ("linear", F(2), F(1))],
+              [("het", 2, [F(2), F(3)], [F(1), F(-1)]), ("clip", F(-2), F(2))],
+              [("linear", F(3), F(-1)), ("het", 3, [F(2), F(3), F(5)], [F(1), F(-1), F(2)]), ("scaling", F(3))]]
     for _ in range(ctx.pick(2, 12)):
         L = rng.randint(1, 4)
         combos.append([tuple(m) for m in gen_models(rng, rng.randint(2, 4), L, near_one=False)])
@@ -521,7 +530,9 @@ def oracle_models(ctx, d):
                 entries = [(p, ns[0] if len(ns) == 1 and rng.random() < 0.5 else ns) for p, ns in entries]
                 dofs_arg = entries
             need = sum(n_params(models[p]) if s == "all" else n_selected(models[p], [s] if isinstance(s, str) else s) for p, s in entries)
-            ps = [Fraction(rng.randint(1, 40), 8) for _ in range(need)]
+            ps = [Fraction(0) if rng.random() < 0.3 else Fraction(rng.randint(-20, 40), 8) for _ in range(need)]
+            if need and rng.random() < 0.5:
+                ps[rng.randrange(need)] = Fraction(0)
             c = mk_case(models, None, L)
             lab, sig = c.arrays()
             objs = [build(d, m, lab) for m in models]
@@ -572,6 +583,212 @@ def oracle_poly(ctx, d, poly, sizes):
                      f"degree {deg}: basis exponents are not a bijection onto {{(i,j) | i+j <= {deg}}}",
                      {"degree": deg, "exponents": [list(e) if e else None for e in ex], "missing": sorted(map(list, want - set(got))),
                       "extra": sorted(map(list, set(got) - want)), "size": size})
+
+
+
+ZERO_INIT = {"clip": ("clip", F(-1), F(2)), "scaling": ("scaling", F(3)), "linear": ("linear", F(2), F(1)),
+             "het": ("het", 2, [F(2), F(3)], [F(1), F(-1)])}
+ZERO_ROUTES = ("update", "update_model_parameters", "CombinedModel.update_model_parameters")
+CLASS_OF = {"clip": "ClipModel", "scaling": "ScalingModel", "linear": "LinearModel", "het": "HeterogeneousLinearModel"}
+
+
+def check_zero_update(d, kind, names, zero_is_float, route):
+    """Set the named parameters of a model to exactly 0 (int 0 or 0.0) through `route` and read the parameters actually in
+    force off the output on a signal spanning both sides of every bound. -> (bad, observed, required)"""
+    zero = 0.0 if zero_is_float else 0
+    m0 = ZERO_INIT[kind]
+    L = 2
+    follower = ("linear", F(2), F(1))
+    models = [m0, follower] if route.startswith("CombinedModel") else [m0]
+    vals = [Fraction(k, 4) for k in range(-12, 13)]
+    c = Case("comb", models, None, [(i % L, v) for i, v in enumerate(vals)], [5, 10], (5, 5))
+    lab, sig = c.arrays()
+    objs = [build(d, m, lab) for m in models]
+    k = n_selected(m0, names)
+    if route == "update":
+        kw = {n: (np.full(L, zero) if kind == "het" else zero) for n in names}
+        r = call(objs[0].update, **kw)
+        target = objs[0]
+    elif route == "update_model_parameters":
+        r = call(objs[0].update_model_parameters, np.array([zero] * k), list(names))
+        target = objs[0]
+    else:
+        target = d.CombinedModel(objs)
+        r = call(target.update_model_parameters, np.array([zero] * k), [(0, list(names))])
+    want_models = ref_route(models, [(0, list(names))], [Fraction(0)] * k)
+    want = np.array([float(v) for v in ref_apply(want_models, c.pix)]).reshape(c.shape)
+    got = r if isinstance(r, Raised) else call(target, sig.copy())
+    bad = isinstance(got, Raised) or np.asarray(got).shape != want.shape or not np.array_equal(got, want)
+    return bad, (repr(got) if isinstance(got, Raised) else np.asarray(got).ravel().tolist()), want.ravel().tolist(), [tok_model(m) for m in want_models]
+
+
+def oracle_zero_updates(ctx, d):
+    """every updatable parameter of every model can be set to exactly 0, through every route"""
+    for kind in KINDS:
+        kd = KIND_DOFS[kind]
+        for names in [list(c) for r in range(1, len(kd) + 1) for c in itertools.combinations(kd, r)]:
+            for zf in (False, True):
+                for route in ZERO_ROUTES:
+                    ctx.count(("zero-update", kind, tuple(names), zf, route))
+                    bad, got, want, wm = check_zero_update(d, kind, names, zf, route)
+                    if bad:
+                        cls = CLASS_OF[kind] if not route.startswith("CombinedModel") else "CombinedModel"
+                        meth = route.split(".")[-1]
+                        ctx.fail(f"C14:{cls}.{meth}({'+'.join(names)}=0):not-applied",
+                                 f"{route} of {CLASS_OF[kind]} with {', '.join(names)} = {0.0 if zf else 0!r}: the parameters in force afterwards "
+                                 "(read off the output on a signal spanning the bounds) are not the ones given",
+                                 {"zero_update": {"kind": kind, "dofs": names, "zero_is_float": zf, "route": route}, "model_before": tok_model(ZERO_INIT[kind]),
+                                  "expected_models_after": wm, "observed": got, "required": want})
+
+
+def _kernel(d, kname):
+    return d.GaussianKernel(1.0) if kname == "GaussianKernel" else d.LinearKernel(1.0)
+
+
+def _kmat(kname, S):
+    S = np.asarray(S, dtype=float)
+    if kname == "GaussianKernel":
+        return np.exp(-np.sum((S[:, None, :] - S[None, :, :]) ** 2, axis=-1))
+    return S @ S.T + 1.0
+
+
+def gen_supports(nrng, kname, n):
+    """n distinct supports in [0,3]^3 (multiples of 1/4: exact in float32, unaffected by the rounding to 5 decimals) with a
+    well-conditioned kernel matrix, in random (unsorted) order"""
+    for _ in range(200):
+        S = nrng.integers(0, 13, (n, 3)) / 4.0
+        if len({tuple(r) for r in S.tolist()}) < n:
+            continue
+        if np.linalg.cond(_kmat(kname, S)) < (50 if kname == "GaussianKernel" else 400):
+            return S
+    raise RuntimeError("no well-conditioned supports found")
+
+
+def gen_kernel_sequence(nrng, kname):
+    """list of steps; every step states where the interpolant must reproduce which values afterwards"""
+    n = int(nrng.integers(1, 5))
+    steps = [{"op": "init", "supports": gen_supports(nrng, kname, n).tolist(), "values": nrng.integers(0, 17, n).astype(float).__truediv__(16).tolist()}]
+    for _ in range(int(nrng.integers(3, 7))):
+        op = ["same_count", "values_only", "new_count", "update_model_parameters", "same_count"][int(nrng.integers(0, 5))]
+        if op == "same_count":
+            steps.append({"op": op, "supports": gen_supports(nrng, kname, n).tolist(), "values": (nrng.integers(0, 17, n) / 16).tolist()})
+        elif op == "new_count":
+            n = int(nrng.integers(1, 5))
+            steps.append({"op": op, "supports": gen_supports(nrng, kname, n).tolist(), "values": (nrng.integers(0, 17, n) / 16).tolist()})
+        else:
+            steps.append({"op": op, "values": (nrng.integers(0, 17, n) / 16).tolist()})
+    return steps
+
+
+def _plain_eval(d, kern, obj, x):
+    """the kernel sum with the object's public `supports` / `interpolation_weights`, without numba (fast, float64)"""
+    return call(d.BaseKernel.linear_combination, kern, np.asarray(x, dtype=float), np.asarray(obj.supports, dtype=float),
+                np.asarray(obj.interpolation_weights, dtype=float))
+
+
+def _eval_both(d, kern, obj, x, through_call):
+    """plain kernel sum; on request also `obj(x)` (numba path) - both must agree with what is required"""
+    outs = [_plain_eval(d, kern, obj, x)]
+    if through_call:
+        outs.append(call(obj, np.asarray(x, dtype=np.float32)))
+    return outs
+
+
+def _miss(outs, want, tol):
+    for o in outs:
+        if isinstance(o, Raised) or np.asarray(o).shape != np.asarray(want).shape or not float(np.max(np.abs(np.asarray(o, dtype=float) - want), initial=0.0)) <= tol:
+            return repr(o) if isinstance(o, Raised) else np.asarray(o, dtype=float).tolist()
+    return None
+
+
+def run_kernel_sequence(d, kname, steps, probe):
+    """-> None or dict(step=i, op, what, observed, required). After every step: reproduction (1e-4) of the step's values at
+    the supports they belong to, and agreement (1e-5) with a fresh object built from the current supports/values. Every step is
+    evaluated with the plain kernel sum over the public supports/weights; the last step also through __call__ (numba)."""
+    kern = _kernel(d, kname)
+    ki = None
+    for i, st in enumerate(steps):
+        last = i == len(steps) - 1
+        vals = np.array(st["values"], dtype=float)
+        if st["op"] == "init":
+            at = np.array(st["supports"], dtype=float)
+            ki = call(d.KernelInterpolation, kern, at.copy(), vals.copy())
+            r = ki
+        elif st["op"] in ("same_count", "new_count"):
+            at = np.array(st["supports"], dtype=float)
+            r = call(ki.update, supports=at.copy(), values=vals.copy())
+        elif st["op"] == "values_only":
+            at = np.asarray(ki.supports, dtype=float).copy()  # values refer to the current supports, in their order
+            r = call(ki.update, values=vals.copy())
+        else:
+            at = np.asarray(ki.supports, dtype=float).copy()
+            r = call(ki.update_model_parameters, vals.copy(), ["values"])
+        if isinstance(r, Raised):
+            return {"step": i, "op": st["op"], "what": f"raises {r!r}", "observed": repr(r), "required": vals.tolist()}
+        m = _miss(_eval_both(d, kern, ki, at, last), vals, 1e-4)
+        if m is not None:
+            return {"step": i, "op": st["op"], "what": "after this step the interpolant does not reproduce the given values at the current supports (1e-4)",
+                    "at_supports": at.tolist(), "observed": m, "required": vals.tolist()}
+        fresh = call(d.KernelInterpolation, _kernel(d, kname), np.asarray(ki.supports, dtype=float).copy(), np.asarray(ki.values, dtype=float).copy())
+        ref = fresh if isinstance(fresh, Raised) else _plain_eval(d, kern, fresh, probe)
+        if isinstance(ref, Raised):
+            return {"step": i, "op": st["op"], "what": f"a fresh object from the current supports/values cannot be built/evaluated: {ref!r}"}
+        m = _miss(_eval_both(d, kern, ki, probe, last), np.asarray(ref, dtype=float), 1e-5 * max(1.0, float(np.max(np.abs(ref)))))
+        if m is not None:
+            return {"step": i, "op": st["op"], "what": "after this step the object differs from a fresh KernelInterpolation built from its current supports and values (1e-5)",
+                    "observed": m, "required": np.asarray(ref, dtype=float).tolist()}
+    return None
+
+
+def run_advanced_sequence(d, kname, seq):
+    """AdvancedKernelInterpolation: update_advanced, then update_variable_model_parameters (twice)"""
+    kern = _kernel(d, kname)
+    ak = call(d.AdvancedKernelInterpolation, kern)
+    if isinstance(ak, Raised):
+        return {"step": 0, "op": "init", "what": f"raises {ak!r}"}
+    FS, FV, VS, VV = (np.array(seq[k], dtype=float) for k in ("fixed_supports", "fixed_values", "variable_supports", "variable_values"))
+    calls = [("update_advanced", lambda: ak.update_advanced(FS.copy(), FV.copy(), VS.copy(), VV.copy()), VV)]
+    for pv in seq["parameters"]:
+        pv = np.array(pv, dtype=float)
+        calls.append(("update_variable_model_parameters", (lambda pv=pv: ak.update_variable_model_parameters(pv.copy())), pv))
+    for i, (name, fn, vv) in enumerate(calls):
+        r = call(fn)
+        if isinstance(r, Raised):
+            return {"step": i, "op": name, "what": f"raises {r!r}", "observed": repr(r)}
+        last = i == len(calls) - 1
+        m = _miss(_eval_both(d, kern, ak, np.vstack([FS, VS]), last), np.hstack([FV, vv]), 1e-4)
+        if m is not None:
+            return {"step": i, "op": name, "what": "fixed values at the fixed supports / variable values at the variable supports are not reproduced (1e-4)",
+                    "observed": m, "required": np.hstack([FV, vv]).tolist()}
+    return None
+
+
+def oracle_kernel_sequences(ctx, d):
+    nrng = np.random.default_rng(ctx.rng.randrange(2**31))
+    probe = nrng.uniform(0, 3, (6, 3)).astype(np.float32)
+    ops = {}
+    for trial in range(ctx.pick(16, 120)):
+        kname = "GaussianKernel" if trial % 2 == 0 else "LinearKernel"
+        steps = gen_kernel_sequence(nrng, kname)
+        for st in steps:
+            ops[st["op"]] = ops.get(st["op"], 0) + 1
+        ctx.count(("kernel-seq", kname, json.dumps(steps)), n=len(steps))
+        bad = run_kernel_sequence(d, kname, steps, probe)
+        if bad:
+            ctx.fail(f"C14:KernelInterpolation({kname}).update-sequence:{bad['op']}", f"step {bad['step']} ({bad['op']}): {bad['what']}",
+                     {"kernel_sequence": {"kernel": kname, "steps": steps[: bad["step"] + 1], "probe": probe.tolist()}, **bad})
+    for trial in range(ctx.pick(8, 60)):
+        kname = "GaussianKernel" if trial % 2 == 0 else "LinearKernel"
+        nf, nv = int(nrng.integers(1, 3)), int(nrng.integers(1, 3))
+        S = gen_supports(nrng, kname, nf + nv)  # random, i.e. unsorted, order
+        seq = {"fixed_supports": S[:nf].tolist(), "fixed_values": (nrng.integers(0, 17, nf) / 16).tolist(), "variable_supports": S[nf:].tolist(),
+               "variable_values": (nrng.integers(0, 17, nv) / 16).tolist(), "parameters": [(nrng.integers(0, 17, nv) / 16).tolist() for _ in range(2)]}
+        ctx.count(("kernel-adv", kname, json.dumps(seq)), n=3)
+        bad = run_advanced_sequence(d, kname, seq)
+        if bad:
+            ctx.fail(f"C14:AdvancedKernelInterpolation({kname}).{bad['op']}", f"call {bad['step']} ({bad['op']}): {bad['what']}",
+                     {"advanced_sequence": {"kernel": kname, **seq}, **bad})
+    ctx.cov["kernel_sequences"] = {"ops": ops, "rule": "after every step: reproduction at the supports the values belong to (1e-4) and equality with a fresh object (1e-5)"}
 
 
 def oracle_kernel(ctx, d):
@@ -649,6 +866,21 @@ def replay(data):
     import darsia as d
 
     rp = data.get("replay", data)
+    if "zero_update" in rp:
+        z = rp["zero_update"]
+        bad, got, want, wm = check_zero_update(d, z["kind"], z["dofs"], z["zero_is_float"], z["route"])
+        print(json.dumps({"call": z, "expected_models_after": wm, "observed": got, "required": want, "still_failing": bad}, indent=1, default=str))
+        return 1 if bad else 0
+    if "kernel_sequence" in rp:
+        k = rp["kernel_sequence"]
+        bad = run_kernel_sequence(d, k["kernel"], k["steps"], np.array(k["probe"], dtype=np.float32))
+        print(json.dumps({"kernel": k["kernel"], "steps": k["steps"], "still_failing": bool(bad), "now": bad}, indent=1, default=str))
+        return 1 if bad else 0
+    if "advanced_sequence" in rp:
+        k = dict(rp["advanced_sequence"])
+        bad = run_advanced_sequence(d, k.pop("kernel"), k)
+        print(json.dumps({"sequence": rp["advanced_sequence"], "still_failing": bool(bad), "now": bad}, indent=1, default=str))
+        return 1 if bad else 0
     if "degree" in rp:
         poly, sizes = tabulate_poly(d)
         deg = rp["degree"]
@@ -735,7 +967,9 @@ def run(ctx):
     oracle_poly(ctx, d, poly, sizes)
     oracle_models(ctx, d)
     oracle_threshold(ctx, d, thr)
+    oracle_zero_updates(ctx, d)
     oracle_kernel(ctx, d)
+    oracle_kernel_sequences(ctx, d)
     ctx.cov["rule"] = ("distinct = distinct request lines / (clause, parameters); dyadic stream only (exact comparison); "
                        ">= 85 % of routing cases valid for the API, the rest checks error classes")
     ctx.assumptions += [
